@@ -198,17 +198,51 @@ func isParamCell(v ssa.Value) bool {
 	return isParam
 }
 
-func arityRule(c *Ctx, rule string, fn *ssa.Function) {
-	name := safeFname(fn)
+func arityRule(c *Ctx, rule string, anchor *ssa.Function) {
+	name := safeFname(anchor)
+	// binding may happen in a helper shared by the statement kinds: analyse the function that calls the binding function
+	fn := anchor
 	var binds []ssa.Instruction
-	allInstrs(fn, func(i ssa.Instruction) {
-		if call, ok := i.(*ssa.Call); ok && calleeFunc(&call.Call) == c.a.ReplacePH {
-			binds = append(binds, i)
+	for _, f := range c.scope(anchor, 2, c.a.ReplacePH, c.a.NumInput) {
+		var bs []ssa.Instruction
+		allInstrs(f, func(i ssa.Instruction) {
+			if call, ok := i.(*ssa.Call); ok && calleeFunc(&call.Call) == c.a.ReplacePH {
+				bs = append(bs, i)
+			}
+		})
+		if len(bs) > 0 {
+			fn, binds = f, bs
+			break
 		}
-	})
+	}
 	if len(binds) == 0 {
-		c.r.undecided(rule, name, "the statement's query function does not call the binding function", c.w.pos(fn.Pos()))
+		c.r.undecided(rule, name, "the statement's query function does not call the binding function", c.w.pos(anchor.Pos()))
 		return
+	}
+	if fn != anchor {
+		// the helper must receive the statement's own values
+		var avals ssa.Value
+		for _, p := range anchor.Params {
+			if sl, ok := p.Type().Underlying().(*types.Slice); ok {
+				if b, ok := sl.Elem().Underlying().(*types.Basic); ok && b.Kind() == types.String {
+					avals = p
+				}
+			}
+		}
+		okPass := false
+		allInstrs(anchor, func(i ssa.Instruction) {
+			if call, ok := i.(*ssa.Call); ok && calleeFunc(&call.Call) == fn {
+				for _, a := range call.Call.Args {
+					if a == avals && avals != nil {
+						okPass = true
+					}
+				}
+			}
+		})
+		if !okPass {
+			c.r.undecided(rule, name, "the helper that binds the placeholders is not given the statement's argument values directly", c.w.pos(anchor.Pos()))
+			return
+		}
 	}
 	// the values parameter
 	var vals ssa.Value
